@@ -182,6 +182,14 @@ def _brandes(prog, rep, f, kind, edges):
             rep.ob('D.edge-gets-the-same-increment', f, e_inc[0] if e_inc else 'EBC[v, w] += ...', oke,
                    'the connection v->w must receive exactly the increment added to the dependency of v', line=dl.lineno)
             feats['edge:accumulate'] = 'EBC[v, w] += same' if oke else None
+        jumps = [x for x in ast.walk(dl) if isinstance(x, (ast.Continue, ast.Break, ast.Return))]
+        uncond = any(il is x for x in dl.body) and all(any(z is x for x in il.body) for z in dp_inc + e_inc) and \
+            all(any(z is x for x in dl.body) for z in acc)
+        rep.ob('D.every-predecessor-receives-its-share', f, jumps[0] if jumps else il, uncond and not jumps,
+               'for every node w of the order (source excluded) and *every* predecessor v of w the share must be added: the dependency loop may not be '
+               'left or cut short (%s at line %s) and the accumulations may not sit under a condition' % (
+                   type(jumps[0]).__name__.lower() if jumps else 'conditional accumulation', jumps[0].lineno if jumps else il.lineno), line=dl.lineno)
+        feats['dependency-unconditional'] = bool(uncond and not jumps)
         extra = [s for s in incs if s not in dp_inc and s not in e_inc]
         rep.ob('D.no-other-accumulation', f, extra[0] if extra else 'accumulators in the dependency loop', not extra, 'unexpected extra accumulation', line=dl.lineno)
     else:
@@ -292,6 +300,9 @@ def variants(root):
 
     def N(name, fn, old, new, **kw):
         out.append(V('%s: neutral %s' % (fn, name), 'neutral', C, old, new, scope='def %s(' % fn, **kw))
+    for fn in ('betweenness_wei', 'edge_betweenness_wei', 'edge_betweenness_bin'):
+        B('first-hop nodes skipped in the back-propagation', fn, '            for v in np.where(P[w, :])[0]:', '            if P[w, u]:\n                continue\n            for v in np.where(P[w, :])[0]:', 'D.every-predecessor')
+        B('back-propagation stops at the first leaf', fn, '            for v in np.where(P[w, :])[0]:', '            if not DP[w]:\n                break\n            for v in np.where(P[w, :])[0]:', 'D.every-predecessor')
     for fn in ('betweenness_wei', 'edge_betweenness_wei'):
         B('unreachable fill one short', fn, 'Q[:q + 1], = np.where(np.isinf(D))', 'Q[:q], = np.where(np.isinf(D))', 'Q.unreachable')
         B('tie treated as improvement', fn, 'if Duw < D[w]:', 'if Duw <= D[w]:', 'R.')
